@@ -712,6 +712,8 @@ fn corpus_projects() -> Vec<Project>
 	for k in 0..70 { chain.push(f(&format!("f{}.asm", k), &if k < 69 { format!(".include \"f{}.asm\"; .du8 {};", k + 1, k) } else { format!(".du8 {};", k) })); }
 	let mut v = corpus_projects_fixed(f);
 	v.push(Project{files: chain, root: "r.asm".into()});
+	// an included file with the base name of its includer, in a sub-directory (not an inclusion of itself)
+	v.push(Project{files: vec![f("r.asm", ".addr 0x100; .du8 1; .include \"boot/r.asm\"; .du8 3;"), f("boot/r.asm", ".du8 2;")], root: "r.asm".into()});
 	// files in sub-directories: a name is resolved against the directory of the file that uses it (decoys at the root)
 	v.push(Project{files: vec![f("r.asm", ".addr 0x100; .include \"sub/a.asm\"; .du8 9;"), f("sub/a.asm", ".du8 1; .include \"b.asm\"; .dfile \"blob.bin\"; .du8 5;"),
 		f("sub/b.asm", ".du8 2;"), f("b.asm", ".du8 0xEE;"), ("sub/blob.bin".to_string(), vec![3, 4]), ("blob.bin".to_string(), vec![0xDD, 0xDD])], root: "r.asm".into()});
